@@ -1060,6 +1060,9 @@ impl<RW: QueueRW<T>, T> Drop for MultiQueue<RW, T> {
                 }
             }
         }
+        // The ring itself was obtained from alloc::allocate in new_internal
+        alloc::deallocate(self.data, self.capacity as usize);
+        alloc::deallocate(self.refs, self.capacity as usize);
     }
 }
 
